@@ -11,7 +11,7 @@ ACTIONS = ("MRun", "SerialIter", "SerialFinal", "Eval", "Enter", "Leave", "Add",
 
 def models(chk, thorough):
     cfgs = ["1_1", "1_2", "1_3", "2_2", "2_3", "3_2", "3_3", "5_3"] if not thorough else \
-        ["%d_%d" % (pl, p) for pl in (1, 2, 3, 5) for p in (1, 2, 3)]
+        ["%d_%d" % (pl, p) for pl in (1, 2, 3, 5) for p in (1, 2, 3)] + ["2_4", "5_4"]
     for c in cfgs:
         chk.model("MC_Mpi", "MC_Mpi_" + c, workers=4, deadlock=True, what="MC_Mpi plan %s ranks %s: MpiInv, no deadlock, all interleavings" % tuple(c.split("_")))
     live = vt.tlc("MC_Mpi", "MC_Mpi_live", workers=4, tag="C04")
